@@ -25,7 +25,7 @@ RULE = (
     "three/int with v >= 0 (3/8 in range with boundary bias; 3/8 from limit-2..limit+2, 2*limit, 256, "
     "253^4, 2^31, 2^32, 2^63, 2^64, 10^30; 2/8 uniform in [limit, limit+2^70)), add_bytes (0-8 bytes "
     "biased to 00/FE/FF), add_string, add_encoded_string, add_fixed_string and "
-    "add_fixed_encoded_string with length = len(s)+d, d in {-3..-1, 0, 1, 2, 5, 40} clamped at 0, "
+    "add_fixed_encoded_string with length = len(s)+d, d in {-3..-1, 0, 1, 2, 5, 40} (negative lengths included: never acceptable), "
     "padded both ways; strings are arbitrary Unicode from the biased alphabet with ÿ "
     "over-represented. The ops are interpreted step by step against a fresh EoWriter and a "
     "RefWriter twin. Non-trivial: the history has >= 1 rejected write after >= 1 accepted write AND "
@@ -38,8 +38,9 @@ ASSUMPTIONS = [
     "vectors in its self test) defines 'declared number of bytes', the cp1252 image and the limits "
     "256 / 253 / 253^2 / 253^3 / 253^4",
     "string length arguments are compared with len(s) in characters; every character occupies one "
-    "byte on the wire (unencodable ones as '?'); lone surrogates are not generated",
-    "negative integers and negative lengths are outside the domain and never generated",
+    "byte on the wire (unencodable ones, lone surrogates included, as '?')",
+    "negative integers are outside the domain and never generated; a negative length can never be honoured "
+    "('appends exactly the declared number of bytes'), so such writes must be refused",
 ]
 NT_FLOOR = 0.10
 
@@ -59,7 +60,7 @@ def selftest():
     st_ = check_case(wrgen.fake_core(), good)
     assert st_["nontrivial"], st_
     assert not in_domain({"ops": [["char", -1]]})
-    assert not in_domain({"ops": [["fixed", "a", -1, True]]})
+    assert in_domain({"ops": [["fixed", "a", -1, True]]}) and not in_domain({"ops": [["fixed", "a", -9, True]]})
     assert not in_domain({"ops": []})
 
     class Partial(wrgen.FakeWriter):       # appends before it validates
@@ -103,7 +104,7 @@ def in_domain(case):
             elif k in STR_KINDS:
                 ok = isinstance(op[1], str) and not any(0xD800 <= ord(ch) <= 0xDFFF for ch in op[1])
                 if k in ("fixed", "efixed"):
-                    ok = ok and type(op[2]) is int and op[2] >= 0 and isinstance(op[3], bool)
+                    ok = ok and type(op[2]) is int and op[2] >= -8 and isinstance(op[3], bool)
             else:
                 ok = False
             if not ok:
@@ -241,6 +242,9 @@ def check_case(c, case, res=None):
 KIND_TABLE = ("char", "mode", "byte", "short", "three", "int", "bytes", "string", "estring", "fixed",
               "efixed", "fixed", "efixed", "mode", "string", "estring")
 LEN_DELTA = (0, 0, 0, 1, 2, 5, 40, -1, -1, -2, -3)
+# over-represented characters: y-diaeresis, and lone surrogates (strings decoded with surrogateescape carry them;
+# they have no windows-1252 image and are written as '?' like every other unencodable character)
+HOT = "ÿÿÿÿÿÿ\udc80\udcff\ud83d"
 
 
 def decode_op(bs):
@@ -255,12 +259,12 @@ def decode_op(bs):
         return [k, bytes(bits.pick((0x00, 0xFE, 0xFF)) if bits.below(4) == 0 else bits.below(256)
                          for _ in range(n)).hex()]
     if k in ("string", "estring"):
-        return [k, wrgen.text(bits, 10, hot="ÿ")]
-    s = wrgen.text(bits, 8, hot="ÿ")
+        return [k, wrgen.text(bits, 10, hot=HOT)]
+    s = wrgen.text(bits, 8, hot=HOT)
     if bits.below(24) == 0:
         # a large field (hundreds of padding bytes when padded; a sure rejection when not)
         return [k, s, bits.pick((253, 254, 255, 256, 300, 1000, 64009)), bits.below(4) != 0]
-    return [k, s, max(0, len(s) + bits.pick(LEN_DELTA)), bits.below(2) == 1]
+    return [k, s, len(s) + bits.pick(LEN_DELTA), bits.below(2) == 1]     # may be negative: never acceptable
 
 
 def case_strategy():
